@@ -141,6 +141,10 @@ pub fn install_panic_hook() {
     }));
 }
 
+pub fn take_panic() -> (String, String) {
+    LAST_PANIC.with(|p| p.borrow_mut().take()).unwrap_or_default()
+}
+
 fn kind_name<T: std::fmt::Debug>(k: &T) -> String {
     let s = format!("{:?}", k);
     s.chars()
